@@ -4,7 +4,7 @@
    is the input); LENS = byte length of every block's encoding (primary first); CRCS = the CRC type codes.
    SAME and LENS together are the property's alarm condition `reencodes_to` of Proofs/CorruptionProofs.v. *)
 From Coq Require Import Strings.String.
-From BP7 Require Import Base.Prelude Base.Decimal Model.Types Model.Encode Model.Decode Run.Proto.
+From BP7 Require Import Base.Prelude Base.Decimal Model.Types Model.Encode Model.Decode Model.Ops Run.Proto.
 
 Definition corr_blocks (b : bundle) : list (list byte) :=
   enc_primary (b_primary b) :: map enc_canonical (b_canonicals b).
@@ -29,6 +29,32 @@ Definition run_corr (args : list tok) : list byte :=
   match args with
   | [t] => corr_bytes t
   | [t; _] => corr_bytes t
+  | _ => bad_case
+  end.
+
+(* REENC x<bytes> x<payload>  ->  OK MEM <T|F> WIRE <T|F|ERR>  |  ERR
+   a node receives the bundle, changes it (new payload through set_payload, lifetime 12345 ms through the public field) and sends it
+   on: what to_cbor emits is an uncorrupted bundle, so it passes the check in memory (MEM) and after decoding (WIRE) - whatever CRC
+   values the received blocks carried *)
+Definition set_p_lifetime (p : primary) (l : N) : primary :=
+  mkprimary (p_version p) (p_flags p) (p_crc p) (p_dst p) (p_src p) (p_rpt p) (p_time p) (p_seq p) l (p_frag_off p) (p_total_len p).
+Definition run_reenc (args : list tok) : list byte :=
+  match args with
+  | [t; pl] =>
+    match get_bytes t, get_bytes pl with
+    | Some bs, Some d =>
+      match from_cbor bs with
+      | Ok b =>
+        let b1 := set_payload b d in
+        let b2 := mkbundle (set_p_lifetime (b_primary b1) 12345) (b_canonicals b1) in
+        let '(bytes2, b3) := to_cbor b2 in
+        join [S_ "OK"; S_ "MEM"; show_bool (crc_valid b3); S_ "WIRE";
+              match from_cbor bytes2 with Ok b4 => show_bool (crc_valid b4) | Err _ => S_ "ERR" | Panic _ => S_ "PANIC" end]
+      | Err _ => S_ "ERR"
+      | Panic _ => S_ "PANIC"
+      end
+    | _, _ => bad_case
+    end
   | _ => bad_case
   end.
 
